@@ -159,8 +159,12 @@ impl<T: Eq + Hash, S: BuildHasher> ShardedSet<T, S> {
             write_lock
         } else {
             // Write contention.  Try reading first to see if the entry already exists.
+            #[cfg(isographlabs_isograph_verif)]
+            crate::verif_exports::probe(crate::verif_exports::PROBE_SHARD_TRY_WRITE_FAILED);
             if let Some(t) = shard.read().get(hash, |other| q == other.borrow()) {
                 // Already exists.
+                #[cfg(isographlabs_isograph_verif)]
+                crate::verif_exports::probe(crate::verif_exports::PROBE_SHARD_FOUND_UNDER_READ);
                 return Ok(t.clone());
             }
             // Unconditionally write lock.
@@ -171,6 +175,8 @@ impl<T: Eq + Hash, S: BuildHasher> ShardedSet<T, S> {
         // upgradable read lock because those are exclusive from one another
         // just like write locks.
         if let Some(t) = shard.get(hash, |other| q == other.borrow()) {
+            #[cfg(isographlabs_isograph_verif)]
+            crate::verif_exports::probe(crate::verif_exports::PROBE_SHARD_FOUND_UNDER_WRITE);
             return Ok(t.clone());
         }
         Err(InsertLock {
